@@ -26,7 +26,9 @@ TRUSTED = [
     "Extracted/OpcodeSelectTables.v (BinaryOp, ResolvedType predicates, the five operator->opcode tables) and Extracted/DispatchArms.v "
     "(which opcodes share a match arm, which Value accessors each arm calls) are regenerated from the Rust source by tools/extractors/c06.py",
     "== / != of an int with a float through the guarded opcodes (EqIIG/EqFFG: `i as f64` then IEEE ==, generic: int_eq_f64) is not proved equal, only tied by hx_vmop",
-    "Model/TypedArray.v is a hand model of AelysArray/AelysVec get/set/push/pop (bytecode/src/object/{array,vec}.rs), tied by hx_c06 --arrays",
+    "Model/TypedArray.v is a hand model of AelysArray/AelysVec get/set/push/pop (bytecode/src/object/{array,vec}.rs, tied by hx_c06 --arrays) "
+    "and of the 40 array / vec load, get, store, push, pop arms of arrays.inc on their register operands incl. the index word "
+    "(tied per opcode by hx_c06 --arrayops); ArrayNew*/ArrayLit/Len/Reserve/StringLoadChar arms are not modelled",
     "pipeline oracle: the reference ('generic semantics') run is the same computation with every operation moved into untyped helper functions "
     "whose operands are laundered (static type Dynamic => generic opcodes); it is accepted as reference only when its own run has 0 "
     "unchecked-accessor mismatches and no panic (then every typed op it executed equals the generic op by typed_agrees_when_tagged_*)",
@@ -303,6 +305,73 @@ def tie_arrays(ctx, path, count):
 
 
 # ----------------------------------------------------------------------------------------------
+# tie 2c: opcode level of Model/TypedArray.v <-> the array / vec arms of the dispatch loop
+LOADSTORE = set(range(135, 139)) | set(range(143, 147)) | set(range(164, 168)) | set(range(172, 176))
+
+
+def tie_arrayops(ctx, path, count):
+    rc, out = vlib.sh([path, "--arrayops", "--seed", str(ctx.seed), "--count", str(count)], timeout=900)
+    if rc != 0:
+        ctx.violation("hx_c06-arrayops-crash", "array opcode harness crashed", {"output_tail": out[-2000:]})
+        return 0
+    cases, byop, idxkinds = [], {}, {}
+    for line in out.splitlines():
+        if not line.startswith("QAop"):
+            continue
+        q, o = line.split("\t")
+        t = q.split(" ")
+        opc, cont, iw, vw = int(t[1]), t[2], int(t[3]), int(t[4])
+        c = cont.split(":")
+        if c[0] in ("A", "V"):
+            ws = "[" + "; ".join(f"{x}%N" for x in c[2].split(",") if x) + "]"
+            hobj = f"({'HArray' if c[0] == 'A' else 'HVec'} (push_all (anew {c[1]} 0) {ws}))"
+        elif c[0] == "S":
+            hobj = f"(HString {c[1]})"
+        elif c[0] == "O":
+            hobj = "HOther"
+        else:
+            hobj = "HNone"
+        outcome, after = o.split("|")
+        u = outcome.split()
+        code = {"W": lambda: f"[0%N; {u[1]}%N]", "N": lambda: "[1%N]", "S": lambda: f"[2%N; {u[1]}%N]",
+                "E": lambda: f"[3%N; {u[1]}%N]", "P": lambda: "[4%N]"}[u[0]]()
+        aft = "[" + "; ".join(f"{x}%N" for x in after.split(",") if x) + "]"
+        cases.append((f"(({opc}%N, {hobj}), ({iw}%N, {vw}%N))", f"({code}, {aft})", line))
+        byop[opc] = byop.get(opc, 0) + 1
+        ik = kind_of_word(iw)
+        idxkinds[ik] = idxkinds.get(ik, 0) + 1
+        # model-free oracle: an index word that is not an int never selects an element
+        if ik != "int" and opc in LOADSTORE and u[0] in ("W", "N", "S"):
+            ctx.violation(f"array-nonint-index-selects-element:{opc}",
+                          f"opcode {opc} with a {ik} index word {iw:#x} produced {outcome!r} instead of the index error",
+                          {"case": line, "how": "hx_c06 --arrayops"})
+        if u[0] == "P":
+            ctx.violation(f"array-op-panic:{opc}", "an array opcode panicked", {"case": line})
+    defs = ("Definition pair_eqb (x y : list N * list N) : bool := list_eqb N.eqb (fst x) (fst y) && list_eqb N.eqb (snd x) (snd y).\n"
+            "Definition run_aop (q : (N * hobj) * (N * N)) : list N * list N :=\n"
+            "  match array_op (fst (fst q)) (snd (fst q)) (fst (snd q)) (snd (snd q)) with\n"
+            "  | Some r => ares_obs (snd (fst q)) r | None => ([9%N], []) end.\n")
+    fails, err = vlib.coq_eval_cases("c06o", "From Coq Require Import Bool.\nFrom Aelys Require Import Model.Value Model.TypedArray.",
+                                     "run_aop", "pair_eqb", [(q, o) for q, o, _ in cases], shard=500, extra_defs=defs)
+    if err:
+        ctx.broken.append("correspondence TypedArray opcodes: model evaluation failed")
+        ctx.log(err[-2000:])
+    if fails:
+        ctx.broken.append(f"correspondence TypedArray opcodes: model and VM differ on {len(fails)} of {len(cases)} cases")
+        ctx.cov["arrayop_disagreements"] = [cases[i][2] for i in fails[:6]]
+        ctx.log("array opcode disagreements:", ctx.cov["arrayop_disagreements"][:3])
+        for i in fails[:3]:
+            ctx.violation("array-op-differs-from-model:" + cases[i][2].split()[1],
+                          "an array / vec opcode does not do what Model/TypedArray.v (proved: non-int index => index error, "
+                          "typed arm = generic index op) says", {"case": cases[i][2]})
+    ctx.cov["arrayop_cases"] = len(cases)
+    ctx.cov["arrayop_by_opcode"] = {str(k): v for k, v in sorted(byop.items())}
+    ctx.cov["arrayop_index_word_kinds"] = idxkinds
+    ctx.add_samples([{"array_opcode": cases[0][2]}] if cases else [])
+    return len(cases)
+
+
+# ----------------------------------------------------------------------------------------------
 # tie 3: whole pipeline
 PRELUDE = """fn helper(q) { return q }
 fn dyn(v) { if false { return "p" } return v }
@@ -485,6 +554,26 @@ def gen_cases():
                     cs.append(mk("typed-array-store", D, T, f"store:{src}:{v}",
                                  f"let a = {ctor}\na[0] = {arg(v, launder)}\nlet r = a[0]\n",
                                  f"let a = dyn({ctor})\nfn st(a, v) {{ a[0] = v\n return a[0] }}\nlet r = st(a, {dy(v)})\n"))
+    # typed containers indexed / stored through an index of unknown static type (ArrayLoadF a[k] with k a float ...)
+    CONT = [("Array<float>", "Array[10.5, 20.5, 30.5]", "Array<Float>[10.5, 20.5, 30.5]", "1.5"),
+            ("Array<int>", "Array[10, 20, 30]", "Array<Int>[10, 20, 30]", "5"),
+            ("Array<bool>", "Array[true, false, true]", "Array<Bool>[true, false, true]", "false"),
+            ("Vec<int>", "Vec[10, 20, 30]", "Vec<Int>[10, 20, 30]", "5"),
+            ("Vec<float>", "Vec[10.5, 20.5]", "Vec<Float>[10.5, 20.5]", "1.5")]
+    IDX = [("int", "2"), ("int", "0"), ("int", "7"), ("int", "(-3)"), ("float", "1.0"), ("float", "2.5"), ("float", "0.0"),
+           ("bool", "true"), ("null", "null"), ("string", '"1"'), ("array", "Array<Int>[1]"), ("function", "helper")]
+    for ann, ctor, dctor, newv in CONT:
+        for T, v in IDX:
+            # the index comes out of an untyped Vec (as in seeded change C06_r2_2) or through dyn()
+            for src, iexpr, pre in (("vec", "box[0]", f"let box = Vec[{v}]\n"), ("dyn", dy(v), "")):
+                if src == "vec" and T in ("null", "function", "array"):
+                    continue
+                cs.append(mk("typed-array-index", ann, T, f"load:{src}:{v}",
+                             pre + f"fn f(k) {{ let a: {ann} = {ctor}\n let r = a[k]\n return r }}\nlet r = f({iexpr})\n",
+                             pre + f"fn g(k) {{ let a = dyn({dctor})\n let r = a[k]\n return r }}\nlet r = g({iexpr})\n"))
+                cs.append(mk("typed-array-index", ann, T, f"store:{src}:{v}",
+                             pre + f"fn f(k) {{ let a: {ann} = {ctor}\n a[k] = {newv}\n let r = a[0]\n return r }}\nlet r = f({iexpr})\n",
+                             pre + f"fn g(k) {{ let a = dyn({dctor})\n a[k] = {dy(newv)}\n let r = a[0]\n return r }}\nlet r = g({iexpr})\n"))
     # no annotation, no dynamic code: regression cases for fix 1cf0449 (sema typed `int OP float` as its LEFT
     # operand, so the enclosing operation was a typed int opcode on a float; found by the C02 tie)
     for op1 in ("*", "+", "-", "/"):
@@ -615,6 +704,8 @@ def classify(case, o, r):
     if rcl == "compile-error":
         return ("skip", "reference-rejected")
     same = (case["D"], case["T"]) in SAME_TYPE or case["position"] == "sized-mixed-arith"
+    if case["position"] == "typed-array-index":
+        same = case["T"] == "int"
     pos = case["position"]
     if ocl == "panic" or om > 0:
         how = "panic: " + odet[:60] if ocl == "panic" else f"{om} unchecked-accessor reads of a wrong-kind value (result {oout[:40]!r})"
@@ -751,6 +842,7 @@ def run(ctx):
             nsel = tie_select(ctx, paths["hx_c06"])
             ctx.log("selection tie done:", nsel)
             nsel += tie_arrays(ctx, paths["hx_c06"], 1500 if quick else 60000)
+            nsel += tie_arrayops(ctx, paths["hx_c06"], 4000 if quick else 80000)
             ctx.log("typed array tie done")
         st = pipeline(ctx, paths["hx_c06"], prof, sel, [0, 1, 2, 3])
         total_runs += st["runs"]
